@@ -278,6 +278,11 @@ func TestC19(t *testing.T) {
 		w.Close()
 	}
 	c19Binary(ev)
+	for _, driver := range vlib.Drivers() {
+		driver := driver
+		parallelCases(vlib.Scale(60, 1200), 8, func(i int) { c19RegistrationStoreFaults(ev, driver, i) })
+		parallelCases(vlib.Scale(8, 80), 4, func(i int) { c19ReRegistrationDuringKeepalives(ev, driver, i) })
+	}
 	parallelCases(vlib.Scale(9, 36), 5, func(i int) { c19EndToEnd(ev, i) })
 	c19ManyHosts(ev, vlib.DriverMemory)
 	finish(t, ev)
